@@ -4,6 +4,6 @@ from .simprops import generic_run, sizes, sim_replay
 from .p_endpoint import run_endpoint_correspondence
 LABELS = {"C08", "C01", "C03", "PANIC"}
 def run(ctx):
-    generic_run(ctx, LABELS, extra=run_endpoint_correspondence, plan=[("inject", lambda: F.fam_inject(ctx.rng, sizes(ctx, 150, 1500)))])
+    generic_run(ctx, LABELS, extra=run_endpoint_correspondence, plan=[("inject_silent", lambda: F.fam_inject_silent(ctx.rng, sizes(ctx, 60, 600))), ("inject", lambda: F.fam_inject(ctx.rng, sizes(ctx, 150, 1500)))])
 def replay(ctx, path):
     return sim_replay(ctx, path, LABELS)
